@@ -226,7 +226,7 @@ Proof. eexists. split; [vm_compute; reflexivity|]. split; vm_compute; reflexivit
 
 (* the Reader LTS: start, two fetches, SetOffset back to 5, stale answer ignored *)
 Definition ex_run := fetch_run no_decomp 100.
-Definition ex_cfg := mkCfg 3 false false.
+Definition ex_cfg := mkCfg 3 false.
 Definition ex_data (o : Z) := FData 19 (fetch_bytes no_compress ex_layout o) (blen (fetch_bytes no_compress ex_layout o)) false.
 Fixpoint run_labels (s : rstate) (ls : list label) {struct ls} : option rstate :=
   match ls with
